@@ -1,6 +1,7 @@
 (* C18 - Schwab conversion keeps every relevant row and emits valid DSL.  Statements only. *)
 From Coq Require Import ZArith NArith List Bool Ascii String Permutation.
 Require Import CGT.Model.Date CGT.Model.Dsl CGT.Model.Schwab CGT.Proofs.DslFacts CGT.Proofs.SchwabFacts CGT.Proofs.SchwabConserve CGT.Proofs.SchwabTax.
+Require Import CGT.Proofs.DslRound CGT.Proofs.SchwabValid.
 From Coq Require Import QArith.
 Import ListNotations.
 
@@ -72,3 +73,29 @@ Print Assumptions C18_comment_cannot_escape.
 Print Assumptions C18_sort_conserves.
 Print Assumptions C18_cancel_removes_one.
 Print Assumptions C18_cancel_unmatched.
+
+(* "The output is valid DSL": every trade and dividend line the converter writes is the DSL writer's own rendering of the transaction the record denotes
+   (BUY / SELL with quantity, price in USD and a FEES clause only for a positive fee; DIVIDEND with its total and a TAX clause only for positive withholding), so the
+   reader model reads it back; comment lines and the empty header line are blank lines.  Hence, for every export the converter accepts, the output is a header
+   followed by the lines of the emitted records, and whenever those records are well-formed (a real date in years 0..9999, a non-empty upper-case alphanumeric
+   symbol, non-negative quantity and price, figures the decimal type holds - the clause's own premise) the whole text parses, to exactly the transactions the
+   records denote, in the output's order. PARTIAL in one respect: the premise is stated on the records the converter emits, not derived from the export's rows. *)
+Theorem C18_lines_are_the_writers : forall d sym q p e c a tax, s_neg q = false -> s_neg p = false -> s_neg a = false ->
+  trade_line KW_BUY d sym q p e = print_txn {| x_date := d; x_tick := sym; x_op := DBuy (s_dec q) (usd p) (charge e) |} /\
+  txn_of_cgt (CBuy d sym q p e c) = Some {| x_date := d; x_tick := sym; x_op := DBuy (s_dec q) (usd p) (charge e) |} /\
+  trade_line KW_SELL d sym q p e = print_txn {| x_date := d; x_tick := sym; x_op := DSell (s_dec q) (usd p) (charge e) |} /\
+  dividend_line d sym a tax = print_txn {| x_date := d; x_tick := sym; x_op := DDividend (usd a) (charge tax) |}.
+Proof.
+  intros d sym q p e c a tax Hq Hp Ha. destruct (trade_line_buy d sym q p e c Hq Hp) as [E1 E2].
+  split; [exact E1|]. split; [exact E2|]. split; [exact (trade_line_sell d sym q p e Hq Hp)|exact (dividend_line_print d sym a tax Ha)].
+Qed.
+Print Assumptions C18_lines_are_the_writers.
+Theorem C18_output_is_valid_dsl_partial : forall valid_cur lb rows aws o, convert lb rows aws = Ok o ->
+  exists header records, o_lines o = header ++ flat_map cgt_lines records /\
+    (Forall (cgt_ok valid_cur) records -> parse valid_cur (join_lines (o_lines o)) = inr (flat_map denotes records)).
+Proof. exact convert_output_parses. Qed.
+Print Assumptions C18_output_is_valid_dsl_partial.
+(* non-vacuity: the records of the example export above are well-formed and its output parses *)
+Example C18_valid_dsl_applies : exists o, convert 7 c18_rows None = Ok o /\
+  exists ts, parse (fun _ => true) (join_lines (o_lines o)) = inr ts /\ ts <> [].
+Proof. eexists. split; [vm_compute; reflexivity|]. eexists. split; [vm_compute; reflexivity|discriminate]. Qed.
